@@ -12,6 +12,7 @@ import (
 	"github.com/vicanso/pike/upstream"
 
 	"pikemc/env"
+	"pikemc/vsched"
 )
 
 // C19 — traffic goes only to healthy upstream servers, backups last. Real loopback origins.
@@ -292,6 +293,10 @@ func init() {
 		c.Out.Rule = "BFS over up/down toggle sequences (depth 4, states = liveness vectors) of 1..3 (quick) / 1..4 (thorough; n=4 with 3 masks in quick) real loopback origins x every primary/backup mask x policies {roundRobin, first, random, leastconn} x health mode {TCP, HTTP ping}; after every toggle an explicit health check (settle) and 3n sequential requests through pike's real proxy: only healthy servers, backups only when no primary is healthy, round-robin counts differ by <=1, all down => 5xx, recovery resumes traffic"
 		c.Out.Assume = []string{"instances live well below the 5 s period of the library's own health-check ticker", "loopback TCP"}
 		c19RealProcess(c)
+		// a reload of the unchanged configuration racing two requests (real loopback origin, every bounded schedule;
+		// the synchronous health check is a scheduling point): a healthy server must stay reachable throughout
+		c.RunSched(c16Conc(c, "reload-vs-requests", vsched.Bounds{Preempt: 2, Tick: 0, Data: -1, Total: -1}))
+		procEnv = nil
 		var idx int64
 		c.NoMergeCap = 400
 		for n := 1; n <= 4; n++ {
